@@ -67,7 +67,8 @@ pub struct RealRun {
 
 /// Executes through `Process` so that memory can be inspected afterwards, even after a failure.
 pub fn run_real(case: &Case, prog: &Program) -> RealRun {
-    let mut process = Process::new(prog.kernel().clone(), case.stack_inputs(), case.host(), ExecutionOptions::default());
+    // bounded: a VM that mis-handles a loop condition must not be able to run away
+    let mut process = Process::new(prog.kernel().clone(), case.stack_inputs(), case.host(), ExecutionOptions::new(Some(1 << 18), 64, false).expect("options"));
     let r = catch(|| process.execute(prog));
     let (outcome, detail, stack) = match r {
         Ok(Ok(out)) => (Outcome::Ok, String::new(), out.stack().to_vec()),
